@@ -175,7 +175,9 @@ func (e *Env) Apply(v *vforge.V, op Op, ord int) error {
 		case "hver":
 			h.Kids[0] = cb.Uint(e.Honest[0].Header().Kids[0].Val + 1)
 		case "guid":
-			h.Kids[1] = cb.Bstr(flip(h.Kids[1].Bytes, 5))
+			// derived from the honest value, not from the current one: applying the alteration twice
+			// (Voucher.tla: alterations are idempotent) gives the same header, also with a Remac between
+			h.Kids[1] = cb.Bstr(flipAt(e.Honest[0].Header().Kids[1].Bytes, 5))
 		case "rv":
 			h.Kids[2] = cb.Arr(cb.Arr(cb.Arr(cb.Uint(3), cb.Bstr([]byte{0x19, 0x01, 0xbb}))))
 		case "info":
@@ -183,7 +185,7 @@ func (e *Env) Apply(v *vforge.V, op Op, ord int) error {
 		case "mfgKey":
 			h.Kids[4] = e.pubNode("stranger", h.Kids[4])
 		case "cchash":
-			h.Kids[5].Kids[1] = cb.Bstr(flip(h.Kids[5].Kids[1].Bytes, 2))
+			h.Kids[5].Kids[1] = cb.Bstr(flipAt(e.Honest[0].Header().Kids[5].Kids[1].Bytes, 2))
 		}
 		v.SetHeader(h)
 	case "alter_outer":
